@@ -92,17 +92,27 @@ def docDesignates (s : JobList) (op : List Char) : Option (Option Nat) :=
         else some (uniqueOf (jobsWhere s (fun n => isPrefixOfL t n)))
   | _ => none
 
-/-- the `(number, marker)` pairs of the lines of a `jobs` report (default and `-l` format) -/
-def reportHeads (out : List Char) : List (Nat × Char) :=
-  let lines := (String.ofList out).splitOn "\n"
-  lines.filterMap fun l =>
-    match l.toList with
-    | '[' :: r =>
-      let ds := r.takeWhile isDigitC
-      match r.dropWhile isDigitC with
-      | ']' :: ' ' :: m :: _ => some (digitsVal ds, m)
-      | _ => none
+/-- the lines of a text: split at every `\n` (a text that ends with `\n` has an empty last line) -/
+def splitLines : List Char → List (List Char)
+  | [] => [[]]
+  | c :: t =>
+    if c = '\n' then [] :: splitLines t
+    else match splitLines t with
+      | l :: ls => (c :: l) :: ls
+      | [] => [[c]]
+
+/-- `[<digits>] <m>…` : the job number and the marker character of one report line -/
+def headOf (l : List Char) : Option (Nat × Char) :=
+  match l with
+  | '[' :: r =>
+    match r.dropWhile isDigitC with
+    | ']' :: ' ' :: m :: _ => some (digitsVal (r.takeWhile isDigitC), m)
     | _ => none
+  | _ => none
+
+/-- the `(number, marker)` pairs of the lines of a `jobs` report (default and `-l` format);
+    characterised by `reportHeads_jobsPrint` (ExtTheorems.lean) -/
+def reportHeads (out : List Char) : List (Nat × Char) := (splitLines out).filterMap headOf
 
 /-- "`jobs` output: the current job is marked with `+`, and the previous job with `-`" -/
 def markersOk (s : JobList) (out : List Char) : Bool :=
@@ -183,6 +193,54 @@ def waitLicence (s s' : JobList) : Bool :=
     | some j => s'.get i == some j || ((s'.get i).isNone && (!j.state.isAlive || !j.owned))) &&
   ((occupied s'.entries).all fun i => (s.get i).isSome)
 
+/-- the prompt report (`input::reporter::report`) removes nothing and touches only the `state_changed`
+    flags: with `interactive` and `monitor` on every job is as before with the flag cleared, otherwise
+    nothing differs; no slot is new -/
+def promptLicence (s s' : JobList) (on : Bool) : Bool :=
+  ((occupied s.entries).all fun i =>
+    s'.get i == (if on then (s.get i).map (fun j => { j with changed := false }) else s.get i)) &&
+  ((occupied s'.entries).all fun i => (s.get i).isSome)
+
+/-- indices of the jobs whose state has changed since the last report -/
+def changedIdx (s : JobList) : List Nat := matchingIdx s.entries (·.changed) 0
+
+/-- `update_all_subshell_statuses` removes nothing and adds nothing: every slot holds the same pid, in
+    the recorded state or in the state one of the events reports for that pid -/
+def syncLicence (s s' : JobList) (evs : List Ev) : Bool :=
+  ((occupied s.entries).all fun i =>
+    match s.get i, s'.get i with
+    | some j, some j' => j'.pid == j.pid && (j'.state == j.state || evs.contains (j.pid, j'.state))
+    | _, _ => false) &&
+  ((occupied s'.entries).all fun i => (s.get i).isSome)
+
+/-- `wait` while the system reports `evs`: a job keeps its slot and pid (its state the recorded one or
+    one an event reports for its pid), or it is gone — and then it was not owned, or had finished, or
+    an event reports for its pid a state that is not alive; no slot is new -/
+def waitEvLicence (s s' : JobList) (evs : List Ev) : Bool :=
+  ((occupied s.entries).all fun i =>
+    match s.get i with
+    | none => true
+    | some j =>
+      match s'.get i with
+      | some j' => j'.pid == j.pid && (j'.state == j.state || evs.contains (j.pid, j'.state))
+      | none => !j.owned || !j.state.isAlive || evs.any (fun e => e.1 == j.pid && !e.2.isAlive)) &&
+  ((occupied s'.entries).all fun i => (s.get i).isSome)
+
+/-- "Signaling jobs": `kill %job` signals the process group of the job the job ID designates; the
+    built-in refuses a job that is not owned, not job-controlled or finished -/
+def killCheck (s : JobList) (arg : Str) : Option String :=
+  match arg with
+  | '%' :: _ =>
+    (match killTarget s arg, ((docDesignates s arg).join).bind s.get with
+     | .ok (true, p), some j =>
+       if j.pid = p ∧ j.state.isAlive ∧ j.owned ∧ j.jc then none else some "kill-designation"
+     | .ok _, _ => some "kill-designation"
+     | .error e, none => if e = "nf" ∨ e = "amb" then none else some "kill-designation"
+     | .error e, some j =>
+       if e = "nf" ∨ e = "amb" then some "kill-designation"
+       else if j.state.isAlive ∧ j.owned ∧ j.jc then some "kill-refused" else none)
+  | _ => none
+
 /-- per-operation documentation checks evaluated on the model's own step `s → s'` with output `o` -/
 def docCheck (s s' : JobList) (op : Op) (o : Out) : Option String :=
   match op with
@@ -251,6 +309,14 @@ def docCheck (s s' : JobList) (op : Op) (o : Out) : Option String :=
         | some j => if s'.lastAsync = pid ∧ j.pid = pid ∧ j.name = name ∧ j.state = .running then none else some "amp-job"
         | none => some "amp-job")
      | none => some "amp-async")
+  | .prompt m i =>
+    if !promptLicence s s' (m && i) then some "prompt-table"
+    else if !markersOk s o.stdout then some "marker"
+    else if (reportHeads o.stdout).map (·.1 - 1) ≠ (if m && i then changedIdx s else []) then some "prompt-jobs"
+    else none
+  | .sync evs => if syncLicence s s' evs then none else some "sync-table"
+  | .waitEv evs _ => if waitEvLicence s s' evs then none else some "wait-removal"
+  | .kres arg => killCheck s arg
   | op =>
     (match becameSuspended s op with
      | none => none
